@@ -331,7 +331,7 @@ class Gen:
 
     def sig_kind(self) -> str:
         return self.rng.choices(["valid", "high-s", "lax", "wrong-key", "wrong-msg", "empty", "hashtype0", "hashtype-undef",
-                                 "no-hashtype", "garbage"], [45, 8, 10, 6, 6, 8, 5, 5, 3, 4])[0]
+                                 "no-hashtype", "garbage", "der-values"], [45, 8, 10, 6, 6, 8, 5, 5, 3, 4, 8])[0]
 
     def ecdsa_sig(self, kind: str, d: int, digest_fn, hash_type: int | None = None) -> tuple[bytes, int]:
         """A signature element (DER || hash type byte) of the requested kind; digest_fn(hash_type) -> 32 bytes."""
@@ -348,6 +348,12 @@ class Gen:
             return b"", hash_type
         if kind == "garbage":
             return bytes(r.randrange(256) for _ in range(r.choice([1, 8, 9, 70, 71, 72, 73, 74]))), hash_type
+        if kind == "der-values":
+            # a canonical DER encoding of values no signer produces: zero, the order and beyond it, an r that is the abscissa
+            # of no point, integers of 33 and 34 octets. The encoding rules read lengths and sign bits, not values
+            N_ = cm.N
+            vals = [0, 1, 2, 5, N_ // 2, N_ // 2 + 1, N_ - 1, N_, N_ + 1, 2**255, 2**256 - 1, 2**256, 2**263, r.getrandbits(256), r.getrandbits(255)]
+            return sg.der(r.choice(vals), r.choice(vals)) + bytes([hash_type]), hash_type
         msg = digest_fn(hash_type)
         if kind == "wrong-key":
             d = self.pool.key(r.randrange(1, 5))[0] ^ 1
